@@ -74,7 +74,7 @@ class C06(Sim):
             "non-trivial = >= 2 meshes alive and >= 2 transform/edit calls")
     FAULT_KINDS = ["aliasing_schedule"]
     PROBES = ["merge_same_twice", "merge_result_edited", "copy_edited", "source_edited_after_copy", "open_ring", "boundary_producer",
-              "subdivision_producer", "int_coordinates", "inverse_pair", "flatten", "normalize", "load_producer", "inplace_edit", "copy_connectivity", "elem_edit", "cloud_in_merge", "copy_of_warm_source", "attribute_attached", "attr_edit"]
+              "subdivision_producer", "int_coordinates", "inverse_pair", "flatten", "normalize", "load_producer", "inplace_edit", "copy_connectivity", "elem_edit", "cloud_in_merge", "copy_of_warm_source", "attribute_attached", "attr_edit", "class_wider_than_content"]
     QUICK_RUNS = 3000
     THOROUGH_RUNS = 300000
     BLOCK = 25
@@ -123,7 +123,7 @@ class C06(Sim):
         if "from_arrays" not in off:
             kinds += ["from_arrays"]
         if "load" not in off:
-            kinds += ["load_obj"]
+            kinds += ["load_obj", "load_wider"]
         names = sorted(self.pool)
         if names:
             kinds += ["copy", "copy", "merge", "merge", "merge"]
@@ -143,6 +143,12 @@ class C06(Sim):
             ev["points"], ev["cells"] = p, c
         elif k in ("raw_cloud", "cloud_from_arrays"):
             ev["points"] = [[round(r.uniform(-3, 3), 3) for _ in range(3)] for _ in range(r.randint(1, 6))]
+        elif k == "load_wider":
+            # a file loaded with a forced dimension: the class is 'wider' than the content (a SurfaceMesh holding only edges, a PolyLine of points)
+            n = r.randint(2, 6)
+            ev["points"] = [[float(i), round(r.uniform(-1, 1), 3), round(r.uniform(-1, 1), 3)] for i in range(n)]
+            ev["edges"] = [[i, i + 1] for i in range(n - 1)] if r.chance(0.6) else []
+            ev["dim"] = 2 if ev["edges"] else r.choice([1, 2])
         elif k == "raw_polyline":
             n = r.randint(2, 7)
             ev["points"] = [[float(i), round(r.uniform(-1, 1), 3), round(r.uniform(-1, 1), 3)] for i in range(n)]
@@ -226,6 +232,12 @@ class C06(Sim):
             self.fs.files[path] = write_obj({"points": ev["points"], "faces": ev["faces"], "edges": []}).encode()
             self.probes["load_producer"] += 1
             fn = lambda: M.mesh.load(path)
+        elif k == "load_wider":
+            from props.c02 import write_obj
+            path = self.fs.root + "%s.obj" % ev["name"]
+            self.fs.files[path] = write_obj({"points": ev["points"], "faces": [], "edges": ev["edges"]}).encode()
+            self.probes["class_wider_than_content"] += 1
+            fn = lambda: M.mesh.load(path, dim=ev["dim"])
         elif k == "ring":
             if a[2]:
                 self.probes["open_ring"] += 1
